@@ -36,6 +36,20 @@ def check(run):
     seqs = [["poseidon " + " ".join(fr_hex(x) for x in v)] for v in typed]
     run.rules.append("poseidon: every arity 1..8 x {all-0, all-1, all-(p-1), all-(p-1)/2, 1..n, descending from p-1, one boundary value per position, random mixes of boundary/limb-sized/full-width values}; distinct = distinct op line")
     seqs = seqs + gen.neighbours(seqs, rng, 40 if quick else 400)      # purity across calls: L, near-duplicate of L, L again
+    # inputs that make a state lane exactly ZERO after the first constant addition (input k = -c[k]): the value a
+    # "skip the zero terms" shortcut in the S-box or in the matrix product would meet; one lane at a time, pairs, all lanes
+    from lib import rlngen as _rg
+    for n in range(1, 9):
+        c = _rg.round1_constants(run.harness(), n + 1)
+        for k in range(1, n + 1):
+            v = [rng.getrandbits(250) for _ in range(n)]
+            v[k - 1] = (P - c[k]) % P
+            seqs.append(["poseidon " + " ".join(hex(x) for x in v)])
+        seqs.append(["poseidon " + " ".join(hex((P - c[k]) % P) for k in range(1, n + 1))])
+        if n >= 2:
+            v = [rng.getrandbits(250) for _ in range(n)]
+            v[0], v[-1] = (P - c[1]) % P, (P - c[n]) % P
+            seqs.append(["poseidon " + " ".join(hex(x) for x in v)])
     run.differential("poseidon-typed", seqs)
 
     # ---- generic parameter records (the theorem quantifies over every record)
@@ -49,7 +63,7 @@ def check(run):
             ups.append([f"uposeidon {t} {rf} {rp} {sk} " + " ".join(fr_hex(gen.rand_fr(rng)) for _ in range(t - 1))])
     ups.append(["uposeidon 3 8 57 0"])                 # empty input: Err
     ups.append(["uposeidon 3 8 57 0 0x1"])             # width without parameters: Err
-    run.rules.append("uposeidon: random (t in 2..6, RF in {2,4,6,8}, RP in 0..12, skip in 0..2) parameter records through zerokit_utils::Poseidon::from")
+    run.rules.append("poseidon: also inputs equal to the negated first-round constants (a zero state lane after the first addition), one lane / two lanes / all lanes per arity; uposeidon: random (t in 2..6, RF in {2,4,6,8}, RP in 0..12, skip in 0..2) parameter records through zerokit_utils::Poseidon::from")
     run.differential("poseidon-generic-params", ups)
 
     # ---- byte-level and FFI entry points
